@@ -1133,6 +1133,11 @@ def compute_z_zprime_Q2d(cm0, ams, bms, u, t):
         surface sag, radial derivative of sag, azimuthal derivative of sag
 
     """
+    if not hasattr(u, 'dtype') or u.dtype.kind not in 'fc':
+        # integer coordinates (u = 0, u = 1) must not make z, dr, dt integer
+        # accumulators
+        u = np.asarray(u, dtype=config.precision)
+
     usq = u * u
     z = np.zeros_like(u)
     dr = np.zeros_like(u)
